@@ -268,6 +268,36 @@ def F18_late_post_tie():
         return f'blinds (2, 4, 0, 0, -4), blind seats all-in for the ante: bets {s.bets}, first to act seat {s.actor_index}, expected seat 2'
 
 
+def F13_antes_roundtrip():
+    """C17: with antes the Pluribus line cannot be read back (recorded finding)."""
+    game = NoLimitTexasHoldem(ALL, True, 2, (1, 2), 2)
+    s = game(200, 3)
+    s.complete_bet_or_raise_to(20)
+    s.check_or_call()
+    s.check_or_call()
+    while s.status and s.actor_index is not None:
+        s.check_or_call()
+    hh = HandHistory.from_game_state(game, s, hand=1)
+    line = hh.to_pluribus_protocol()
+    import warnings as w
+    with w.catch_warnings(record=True) as rec:
+        w.simplefilter('always')
+        got = list(HandHistory.from_acpc_protocol(NoLimitTexasHoldem((), True, 2, (1, 2), 2), 200, line))
+    if not got or any('Unable to parse' in str(x.message) for x in rec):
+        return f'{line!r} cannot be parsed back'
+    if [o for o in list(got[0])[-1].operations if type(o).__name__ == 'CompletionBettingOrRaisingTo'][0].amount != 20:
+        return f'{line!r} reads back with a different raise size'
+
+
+def F20_split_street():
+    """C17: a flop dealt by two board-dealing actions is written as two streets (recorded finding)."""
+    hh = HandHistory(variant='NT', antes=[0, 0], blinds_or_straddles=[1, 2], min_bet=2, starting_stacks=[200, 200],
+                     actions=['d dh p1 AsKs', 'd dh p2 QdQc', 'p2 cc', 'p1 cc', 'd db 3h', '', 'd db 8hQs'], hand=1)
+    line = hh.to_pluribus_protocol()
+    if line.split(':')[2].count('/') != 1:
+        return f'one street dealt, written as {line!r}'
+
+
 DEMOS = {k: v for k, v in globals().items() if k.startswith('F') and callable(v) and k[1:2].isdigit()}
 
 if __name__ == '__main__':
